@@ -2,9 +2,12 @@
    kernels of Generated/LatticeArith.v): every statement is a closed boolean closed by vm_compute, with
    the bound in the statement, plus its Prop-level reading.
      sizes:  all (rows, cols) with 2 <= rows, cols <= 8 (validity, shapes, flatten bijection),
-             all (rows, cols) with 2 <= rows, cols <= 7 (paths: ALL ordered same-type pairs, virtual included). *)
+             all (rows, cols) with 2 <= rows, cols <= 7 (paths: ALL ordered same-type pairs, virtual included),
+             all (rows, cols) with 2 <= rows, cols <= 6 (GF(2) ranks, Core/Rank.v certificate checker),
+             all (rows, cols) with 2 <= rows, cols <= 5 except 5x5 (true minimum distance, Core/DistCSS.v). *)
 From Coq Require Import ZArith List Bool Lia.
-From QV Require Import Core.Bits Core.Pauli Core.Symp Core.Code Generated.LatticeArith Lattice.Planar.
+From QV Require Import Core.Bits Core.Pauli Core.Symp Core.Code Core.Span Core.Rank Core.Dist Core.DistCSS
+  Generated.LatticeArith Lattice.Planar.
 Import ListNotations.
 Open Scope Z_scope.
 
@@ -89,6 +92,47 @@ Proof.
   split.
   - apply Nat.eqb_eq in H1. now rewrite map_length in H1.
   - intros k Hk. rewrite forallb_forall in H2. apply Nat.eqb_eq. apply H2. apply in_seq. lia.
+Qed.
+
+(* ---------------- C07: GF(2) ranks (sound checker of Core/Rank.v) ---------------- *)
+Definition rank_ok (r c : Z) : bool :=
+  let cd := planar_code r c in
+  let '(n, k, d) := planar_n_k_d r c in
+  rank_check (2 * Z.to_nat n) (stabs cd) (Z.to_nat (n - k)) &&
+  rank_check (2 * Z.to_nat n) (stabs cd ++ lxs cd ++ lzs cd) (Z.to_nat (n + k)).
+Theorem planar_rank_upto6 : all_sizes 6 rank_ok = true.
+Proof. vm_compute. reflexivity. Qed.
+Theorem planar_rank_upto6_spec : forall r c, 2 <= r <= 6 -> 2 <= c <= 6 ->
+  let cd := planar_code r c in
+  let '(n, k, d) := planar_n_k_d r c in
+  rank_is (2 * Z.to_nat n) (stabs cd) (Z.to_nat (n - k)) /\
+  rank_is (2 * Z.to_nat n) (stabs cd ++ lxs cd ++ lzs cd) (Z.to_nat (n + k)).
+Proof.
+  intros r c Hr Hc. pose proof (all_sizes_spec _ _ planar_rank_upto6 r c Hr Hc) as H. unfold rank_ok in H.
+  cbv zeta. destruct (planar_n_k_d r c) as [[n k] d]. apply andb_true_iff in H. destruct H as [H1 H2].
+  split; now apply rank_check_sound.
+Qed.
+
+(* ---------------- C08: the advertised d is the true minimum distance (sound checker of Core/DistCSS.v:
+   a supplied logical of weight d that anticommutes with its partner, and the exhaustive CSS lower bound) -------- *)
+Definition dist_ok (r c : Z) : bool :=
+  let cd := planar_code r c in
+  let '(n, k, d) := planar_n_k_d r c in
+  let lx := nth 0 (lxs cd) [] in
+  let lz := nth 0 (lzs cd) [] in
+  css_distance_check (Z.to_nat n) (stabs cd) (Z.to_nat d) (if r <=? c then lx else lz) (if r <=? c then lz else lx).
+Definition dist_sizes : list (Z * Z) := filter (fun s => negb (zeqb2 s (5, 5))) (sizes_upto 5).
+Theorem planar_distance_upto5 : forallb (fun s => dist_ok (fst s) (snd s)) dist_sizes = true.
+Proof. vm_compute. reflexivity. Qed.
+Theorem planar_distance_upto5_spec : forall r c, 2 <= r <= 5 -> 2 <= c <= 5 -> (r, c) <> (5, 5) ->
+  let '(n, k, d) := planar_n_k_d r c in
+  is_distance (Z.to_nat n) (stabs (planar_code r c)) (Z.to_nat d).
+Proof.
+  intros r c Hr Hc Hne. pose proof planar_distance_upto5 as H. rewrite forallb_forall in H.
+  specialize (H (r, c)). cbn [fst snd] in H. unfold dist_ok in H. destruct (planar_n_k_d r c) as [[n k] d].
+  eapply css_distance_check_sound. apply H. unfold dist_sizes. apply filter_In. split; [now apply sizes_upto_In|].
+  destruct (zeqb2 (r, c) (5, 5)) eqn:E; [|reflexivity]. exfalso. apply Hne. unfold zeqb2 in E. cbn [fst snd] in E.
+  apply andb_true_iff in E. destruct E as [E1 E2]. apply Z.eqb_eq in E1, E2. now subst.
 Qed.
 
 (* ---------------- C15: plaquette supports, virtual plaquettes, all paths ---------------- *)
